@@ -2,6 +2,7 @@ pub mod capi;
 pub mod echo;
 pub mod enc;
 pub mod esc;
+pub mod h5;
 pub mod hash;
 pub mod nsprobe;
 pub mod lex;
@@ -21,6 +22,7 @@ pub fn find(name: &str) -> Option<LaneFn> {
         "echo" => echo::run,
         "enc" => enc::run,
         "esc" => esc::run,
+        "h5" => h5::run,
         "hash" => hash::run,
         "nsprobe" => nsprobe::run,
         "lex" => lex::run,
